@@ -243,6 +243,7 @@ func (e *Engine) buildQuery(o *Obligation, withModel bool) string {
 
 func (e *Engine) buildQueryF(o *Obligation, withModel, filter bool) string {
 	var b strings.Builder
+	fmt.Fprintf(&b, "; %s\n", o.Name)
 	b.WriteString("(set-option :produce-models true)\n(set-logic ALL)\n")
 	for _, d := range e.sorts.decls {
 		b.WriteString(d)
